@@ -94,6 +94,11 @@ pub fn update_position_reply(
         _ => {
             swap_margin = Uint128::zero();
 
+            // a reduction never exchanges more base than the position holds
+            if signed_output.abs() > position.size.abs() {
+                return Err(StdError::generic_err("Reduction exceeds position size"));
+            }
+
             // realized_pnl = unrealized_pnl * close_ratio
             let realized_pnl = if !position.size.is_zero() {
                 swap.unrealized_pnl.checked_mul(signed_output.abs())? / position.size.abs()
@@ -475,6 +480,11 @@ pub fn partial_close_position_reply(
         Side::Buy => Integer::new_positive(output),
         Side::Sell => Integer::new_negative(output),
     };
+
+    // a partial close never exchanges more base than the position holds
+    if signed_output.abs() > position.size.abs() {
+        return Err(StdError::generic_err("Reduction exceeds position size"));
+    }
 
     // realized_pnl = unrealized_pnl * close_ratio
     let realized_pnl = if !position.size.is_zero() {
